@@ -23,7 +23,7 @@ ID = "C45"
 LEVEL = "exploration"
 TECHNIQUE = "exhaustive grammar enumeration of s-expressions x policies with side-effect instrumentation; exhaustive small object graphs"
 RULE = ("security: all s-expressions of depth <= D built from the 3 naming atoms (module/class/function) and the generic "
-        "dotted-type form over a 38-name alphabet (one name per resolution special case: allowed / disallowed / "
+        "dotted-type form over a 42-name alphabet (dotted and undotted) (one name per resolution special case: allowed / disallowed / "
         "never-imported module, allowed-module attribute that is a disallowed module, unlisted class, foreign class, "
         "foreign function, sub-attribute chains, package with one allowed submodule, malformed names), wrapped by every "
         "structural tag (instance, method, list, tuple, dictionary key/value, set, frozenset, reference, forward and "
@@ -258,6 +258,9 @@ QUAL_NAMES = [
     (b"c45ok.WithMeta", "allowed.attr=unlisted-class"), (b"c45ok.RegCopy", "allowed.attr=unlisted-class"),
     (b"c45ok.nonexistent", "malformed"), (b"Good", "malformed"), (b"", "malformed"), (b"c45ok.", "malformed"),
     (b".c45ok", "malformed"), (b"c45ok..Good", "malformed"), (b"c45ok", "allowed-module"),
+    # undotted names: the "module part" is empty, nothing may be imported or resolved for them
+    (b"c45lazy", "undotted-unimported-disallowed-module"), (b"c45evil", "undotted-disallowed-module"),
+    (b"c45pkg", "undotted-parent-of-allowed-module"), (b"c45nonexistent", "undotted-nonexistent"),
 ]
 STATES = [[b"dictionary"], [b"dictionary", [b"x", 1]], 5]
 
@@ -308,6 +311,7 @@ def wrappers():
         ("instance-class", lambda e: [b"instance", e, [b"dictionary", [b"a", 1]]]),
         ("instance-state", lambda e: [b"instance", [b"class", b"c45ok.Good"], e]),
         ("method-class-none", lambda e: [b"method", b"meth", [b"None"], e]),
+        ("method-name", lambda e: [b"method", e[1] if len(e) > 1 else e, [b"None"], [b"class", b"c45ok.Good"]]),
         ("method-class-run", lambda e: [b"method", b"run", [b"None"], e]),
         ("method-class-self", lambda e: [b"method", b"meth", list(GOOD_INST), e]),
         ("method-run-badself", lambda e: [b"method", b"run", list(BAD_INST), e]),
@@ -518,7 +522,7 @@ def security_case(env, stats, pname, sexp, label):
 
 HIST_NAMES = [b"c45ok.Good", b"c45ok.Other", b"c45ok.func", b"c45ok.os", b"c45ok.evil", b"c45ok.ImportedBad",
               b"c45ok.imported_g", b"c45ok.evil.Bad", b"c45evil.Bad", b"c45evil.g", b"c45lazy.X", b"os.system",
-              b"c45pkg.inner.Deep", b"c45pkg.secret.S"]
+              b"c45pkg.inner.Deep", b"c45pkg.secret.S", b"c45lazy", b"c45ok"]
 HIST_MODULES = [b"c45ok", b"c45evil", b"c45lazy", b"os", b"c45pkg.inner", b"c45pkg.secret"]
 HIST_POLICIES = ["dummy", "evil-instances+function", "instances+function", "instances", "basic"]
 
